@@ -207,6 +207,7 @@ def run(ctx):
 
     call_sites(ctx)
     dirnode_grid_cases(ctx)
+    lease_grid_cases(ctx)
 
 
 def _netstrings(data):
@@ -218,6 +219,66 @@ def _netstrings(data):
         assert data[colon + 1 + n:colon + 2 + n] == b","
         pos = colon + 2 + n
     return out
+
+
+def lease_grid_cases(ctx):
+    """Lease secrets as they are actually STORED by the servers: after uploads and re-uploads of the same file by the same
+    client -- with some share holders meanwhile (almost) full or read-only, so that they are only asked to renew -- every
+    lease on every share carries bucket_renewal/cancel_secret(file secret(client secret, SI), that server's id)."""
+    try:
+        from core import grid as G
+    except Exception as e:
+        ctx.note("lease grid part skipped: %s" % e)
+        return
+    import os
+    from allmydata import uri
+    from allmydata.util import base32
+    from allmydata.storage.shares import get_share_file
+    for i in range(ctx.n(1, 4)):
+        r = ctx.rng("leasegrid", i)
+        seed = r.getrandbits(30)
+        with G.Grid(num_clients=1, num_servers=6, k=2, n=6, happy=3, seed=seed, timeout=180) as g:
+            c = g.client(0)
+            with open(os.path.join(c.config.get_config_path("private"), "secret"), "rb") as f:
+                lease_secret = base32.a2b(f.read().strip())
+            crs = _tag(lease_secret, b"allmydata_client_renewal_secret_v1")
+            ccs = _tag(lease_secret, b"allmydata_client_cancel_secret_v1")
+            data = bytes(r.getrandbits(8) for _ in range(r.choice([300, 5000])))
+            conv = b"c17-convergence-%d" % i
+            cap = g.run(g.upload(data, convergence=conv))
+            si = uri.from_string(cap).get_storage_index()
+
+            def check(when):
+                n_ = 0
+                for j in range(6):
+                    ss = g.server(j)
+                    want_r = _pair(b"allmydata_bucket_renewal_secret_v1", _pair(b"allmydata_file_renewal_secret_v1", crs, si), ss.my_nodeid)
+                    want_c = _pair(b"allmydata_bucket_cancel_secret_v1", _pair(b"allmydata_file_cancel_secret_v1", ccs, si), ss.my_nodeid)
+                    for shnum, fn in ss.get_shares(si):
+                        for ln, lease in enumerate(get_share_file(fn).get_leases()):
+                            n_ += 1
+                            ctx.case(("lease", seed, when, j, shnum, ln), kind="stored-lease-secrets")
+                            if not lease.is_renew_secret(want_r) or not lease.is_cancel_secret(want_c):
+                                ctx.oracle_fail("call-site:stored-lease-secrets", "%s: lease %d on share %d of server %d does not carry the renewal/cancel secrets the "
+                                                "specification derives for this client, file and server" % (when, ln, shnum, j),
+                                                case={"seed": seed, "when": when, "server": j, "share": shnum, "lease": ln})
+                return n_
+            check("first upload")
+            holders = [j for j in range(6) if list(g.server(j).get_shares(si))]
+            r.shuffle(holders)
+            for j in holders[:r.choice([1, 2, 3])]:
+                ss = g.server(j)
+                if r.random() < 0.5:
+                    ss.get_available_space = lambda: 500          # room for a lease record, not for another share
+                else:
+                    ss.readonly_storage = True
+                for w in g._wrappers(j):
+                    w.version = ss.get_version()
+            out = g.run(g.upload(data, convergence=conv), outcome=True)
+            if out.status == "ok" and out.value == cap:
+                check("second upload of the same file, some holders full or read-only")
+            else:
+                ctx.count("lease-grid-second-upload:%s" % (out.error or "other cap"))
 
 
 def dirnode_grid_cases(ctx):
